@@ -382,13 +382,20 @@ impl Formatter {
         self.writer.write(&nt.name);
         self.writer.write(" = newtype ");
         self.format_type(&nt.underlying.node);
+        if !nt.methods.is_empty() {
+            self.writer.write(":");
+        }
         self.writer.newline();
 
         // Methods if any
         if !nt.methods.is_empty() {
             self.writer.indent();
+            let mut first = true;
             for method in &nt.methods {
-                self.writer.newline();
+                if !first {
+                    self.writer.newline();
+                }
+                first = false;
                 self.format_method(&method.node);
             }
             self.writer.dedent();
